@@ -164,8 +164,13 @@ def inherited_reports(base_label, pid=None):
         data = json.load(open(os.path.join(VERIF, 'known_findings.json')))
     except (OSError, ValueError):
         return set()
-    return {(f['rule'], f['key']) for f in data.get('fixed_rules', [])
-            if pid is None or f.get('property') == pid}
+    got = {(f['rule'], f['key']) for f in data.get('fixed_rules', [])
+           if pid is None or f.get('property') == pid}
+    if pid in (None, 'C04'):
+        # C04-D7 takes over verdicts of the C05 exchange analysis, keyed by the C05 construct
+        got |= {('C04-D7-faults-are-recorded', 'via:%s:%s' % (f['rule'], f['key']))
+                for f in data.get('fixed_rules', []) if f.get('property') == 'C05'}
+    return got
 
 
 def stopped_early(out):
